@@ -147,6 +147,8 @@ class Models:
             return Agg(list(ops), p)
         if segs[-1] == 'RangeFull':
             return Agg([], 'RangeFull')
+        if segs[-1] in ('RangeFrom', 'RangeTo') and len(ops) == 1:
+            return Agg(list(ops), segs[-1])
         if p in ('std::ops::Range', 'std::ops::RangeInclusive', 'Range', 'RangeInclusive'):
             return Agg(list(ops), segs[-1])
         if segs[-1] in ('OrderedFloat', 'NotNan', 'Reverse', 'Wrapping', 'PhantomData'):
@@ -584,8 +586,28 @@ class Models:
             return Ref(v.entries[i], 1)
         if isinstance(idx, Agg) and idx.ty == 'RangeFull':
             return cont if isinstance(cont, Ref) else ref_to(v)
-        if isinstance(idx, Agg) and idx.ty in ('Range', 'RangeFrom', 'RangeTo'):
-            raise Unsupported('range index')
+        if isinstance(idx, Agg) and idx.ty in ('Range', 'RangeFrom', 'RangeTo', 'RangeInclusive'):
+            base = v if isinstance(v, (RVec, SliceView, str)) else None
+            if base is None:
+                raise Unsupported('range index on ' + type(v).__name__)
+            n = len(base) if isinstance(base, str) else len(base.items)
+            if idx.ty == 'Range':
+                lo, hi = idx.f[0], idx.f[1]
+            elif idx.ty == 'RangeInclusive':
+                lo, hi = idx.f[0], idx.f[1] + 1
+            elif idx.ty == 'RangeFrom':
+                lo, hi = idx.f[0], n
+            else:
+                lo, hi = 0, idx.f[0]
+            if not (isinstance(lo, int) and isinstance(hi, int)):
+                raise Unsupported('symbolic range index')
+            if lo > hi or hi > n:
+                raise RustPanic('range index out of bounds')
+            if isinstance(base, str):
+                return base[lo:hi]
+            if isinstance(base, SliceView):
+                return ref_to(SliceView(base.vec, base.lo + lo, base.lo + hi))
+            return ref_to(SliceView(base, lo, hi))
         return self.it.index_ref(v if not (isinstance(v, Agg) and len(v.f) == 1) else deref(v.f[0]), idx)
 
     m_IndexMut__index_mut = m_Index__index
@@ -1486,6 +1508,93 @@ class Models:
         s = deref(s)
         return Some(s[len(p):]) if s.startswith(p) else NONE()
 
+    def m_str__split_whitespace(self, c, s):
+        return list_iter(deref(s).split())
+
+    def m_str__split(self, c, s, pat):
+        pat = pat if isinstance(pat, str) else chr(pat)
+        return list_iter(deref(s).split(pat))
+
+    def m_str__splitn(self, c, s, n, pat):
+        s = deref(s)
+        if isinstance(pat, (Closure, FnItem)):
+            out, cur, cnt = [], '', 1
+            for ch in s:
+                if cnt < n and self.ctx.branch(self.call_closure(pat, ord(ch))):
+                    out.append(cur)
+                    cur = ''
+                    cnt += 1
+                else:
+                    cur += ch
+            out.append(cur)
+            return list_iter(out)
+        pat = pat if isinstance(pat, str) else chr(pat)
+        return list_iter(s.split(pat, n - 1))
+
+    def m_str__lines(self, c, s):
+        return list_iter(deref(s).splitlines())
+
+    def m_str__chars(self, c, s):
+        return list_iter([ord(ch) for ch in deref(s)])
+
+    def m_str__as_bytes(self, c, s):
+        return ref_to(RVec(list(deref(s).encode())))
+
+    def m_str__contains(self, c, s, p):
+        return (p if isinstance(p, str) else chr(p)) in deref(s)
+
+    def m_str__trim_start(self, c, s):
+        return deref(s).lstrip()
+
+    def m_str__trim_end(self, c, s):
+        return deref(s).rstrip()
+
+    def m_str__strip_suffix(self, c, s, p):
+        s = deref(s)
+        return Some(s[:len(s) - len(p)]) if s.endswith(p) else NONE()
+
+    def m_str__parse(self, c, s):
+        s = deref(s)
+        k = c.rindex('::parse::<')
+        ty = norm_ty(c[k + len('::parse::<'):-1])
+        if ty == 'f64':
+            toks = self.ctx.notes.get('numtokens', {})
+            if s in toks:
+                return Ok(toks[s])
+            v = rust_parse_f64(s)
+            return Err(Opaque('ParseFloatError', s)) if v is None else Ok(v)
+        if ty in INT_TYS:
+            signed, bits = INT_TYS[ty]
+            if re.fullmatch(r'[+-]?\d+' if signed else r'\+?\d+', s):
+                n = int(s)
+                lo = -(1 << (bits - 1)) if signed else 0
+                hi = (1 << (bits - 1)) - 1 if signed else (1 << bits) - 1
+                if lo <= n <= hi:
+                    return Ok(n)
+            return Err(Opaque('ParseIntError', s))
+        if ty == 'String':
+            return Ok(RString(s))
+        # user type: <T as FromStr>::from_str
+        return self.it.call(f'<{ty} as FromStr>::from_str', [s], None)
+
+    def m_char__is_ascii_whitespace(self, c, ch):
+        ch = deref(ch)
+        return chr(ch) in ' \t\n\x0c\r'
+
+    def m_char__is_whitespace(self, c, ch):
+        return chr(deref(ch)).isspace()
+
+    def m_char__to_ascii_uppercase(self, c, ch):
+        ch = deref(ch)
+        return ord(chr(ch).upper()) if ch < 128 else ch
+
+    def m_char__to_ascii_lowercase(self, c, ch):
+        ch = deref(ch)
+        return ord(chr(ch).lower()) if ch < 128 else ch
+
+    def m_char__is_ascii_digit(self, c, ch):
+        return chr(deref(ch)).isdigit() and deref(ch) < 128
+
     def m_str__to_lowercase(self, c, s):
         return RString(deref(s).lower())
 
@@ -1498,7 +1607,75 @@ class Models:
     m_str__to_owned = m_str__to_string
 
     def m_fmt__format(self, c, args):
-        return RString(('fmt', args))
+        return RString(self.render(args))
+
+    def render(self, args):
+        """render a fmt::Arguments value to a python string (new compact template encoding of rustc >= 1.89):
+        0x00 end, 0x01..0x7f literal of that length, 0xc0 next argument with default options"""
+        if not (isinstance(args, Opaque) and args.what == 'fmtargs'):
+            return '<fmt>'
+        a = args.data
+        if len(a) == 1:          # Arguments::from_str("literal")
+            return a[0] if isinstance(a[0], str) else '<fmt>'
+        tmpl, argv = a[0], a[1]
+        if not (isinstance(tmpl, Opaque) and tmpl.what == 'bytes'):
+            return '<fmt>'
+        raw = parse_byte_literal(tmpl.data)
+        items = [deref(x) for x in deref(argv).items] if isinstance(deref(argv), (RVec, SliceView)) else []
+        out, i, k = [], 0, 0
+        while i < len(raw):
+            b = raw[i]
+            if b == 0:
+                break
+            if b < 0x80:
+                out.append(raw[i + 1:i + 1 + b].decode('utf-8', 'replace'))
+                i += 1 + b
+                continue
+            if b == 0xc0:
+                out.append(self.display(items[k].data if k < len(items) and isinstance(items[k], Opaque) else None))
+                k += 1
+                i += 1
+                continue
+            # placeholder with explicit options (width / precision / flags): not modelled precisely
+            out.append(self.display(items[k].data if k < len(items) and isinstance(items[k], Opaque) else None))
+            k += 1
+            i += 1
+            while i < len(raw) and raw[i] >= 0x80 and raw[i] != 0xc0:
+                i += 1
+        return ''.join(out)
+
+    def display(self, v):
+        v = deref(v)
+        if isinstance(v, str):
+            return v
+        if isinstance(v, RString):
+            return v.s if isinstance(v.s, str) else str(v.s)
+        if isinstance(v, bool):
+            return 'true' if v else 'false'
+        if isinstance(v, int):
+            return str(v)
+        if isinstance(v, FV):
+            return self.display_f64(v)
+        if isinstance(v, Enum) and v.ty.endswith('ObjSense'):
+            return {'Min': 'MIN', 'Max': 'MAX'}.get(v.vname, v.vname)
+        if isinstance(v, Agg) and len(v.f) == 1:
+            return self.display(v.f[0])
+        return '<?>'
+
+    def display_f64(self, v):
+        if v.tag == 'pinf':
+            return 'inf'
+        if v.tag == 'ninf':
+            return '-inf'
+        if v.tag == 'nan':
+            return 'NaN'
+        if isinstance(v.r, Fraction):
+            return rust_f64_display(float(v.r))
+        # symbolic number: a token that parse::<f64>() maps back to the same value
+        toks = self.ctx.notes.setdefault('numtokens', {})
+        key = '\u00a7n%d\u00a7' % len(toks)
+        toks[key] = v
+        return key
 
     def m_must_use(self, c, x):
         return x
@@ -1516,10 +1693,25 @@ class Models:
     def m_Arguments__new(self, c, *a):
         return Opaque('fmtargs', a)
 
-    m_Arguments__new_v1 = m_Arguments__new_const = m_Arguments__from_str = m_Arguments__new_v1_formatted = m_Arguments__new
+    def m_Arguments__from_str(self, c, s):
+        return Opaque('fmtargs', (s,))
+
+    m_Arguments__new_v1 = m_Arguments__new_const = m_Arguments__new_v1_formatted = m_Arguments__new
 
     def m_DecodeError__new(self, c, m):
         return Opaque('DecodeError', m)
+
+    def m_Write__write_fmt(self, c, w, args):
+        w = deref(w)
+        if not isinstance(w, RString):
+            raise Unsupported('write_fmt on ' + type(w).__name__)
+        w.s += self.render(args)
+        return Ok(UNIT)
+
+    m_Formatter__write_fmt = m_Write__write_fmt
+
+    def m_Write__write_all(self, c, w, data):
+        raise Unsupported('write_all')
 
     def m_Error__msg(self, c, m):
         return Opaque('anyhow', ('msg', m))
@@ -2168,6 +2360,62 @@ class Models:
 
 
 STD_EPS = FV('fin', Fraction(2.220446049250313e-16))
+
+
+def parse_byte_literal(text):
+    """bytes of a rustc-printed byte string literal  b"..." """
+    body = text[2:-1]
+    out = bytearray()
+    i = 0
+    while i < len(body):
+        ch = body[i]
+        if ch == '\\':
+            nx = body[i + 1]
+            if nx == 'x':
+                out.append(int(body[i + 2:i + 4], 16))
+                i += 4
+                continue
+            out.append({'n': 10, 't': 9, 'r': 13, '0': 0, '\\': 92, '"': 34, "'": 39}[nx])
+            i += 2
+            continue
+        out += ch.encode('utf-8')
+        i += 1
+    return bytes(out)
+
+
+def rust_f64_display(x):
+    """Rust's `{}` for f64: shortest round-trip digits, positional notation, no trailing '.0'"""
+    import decimal
+    if x != x:
+        return 'NaN'
+    if x in (float('inf'), float('-inf')):
+        return 'inf' if x > 0 else '-inf'
+    if x == 0:
+        return '-0' if str(x).startswith('-') else '0'
+    d = decimal.Decimal(repr(x))
+    t = format(d, 'f')
+    if '.' in t:
+        t = t.rstrip('0').rstrip('.')
+    return t
+
+
+_F64_RE = re.compile(r'[+-]?(?:(?:\d+\.?\d*|\.\d+)(?:[eE][+-]?\d+)?|inf|infinity|nan)$', re.I)
+
+
+def rust_parse_f64(s):
+    if not _F64_RE.match(s):
+        return None
+    t = s.lower()
+    if t.lstrip('+-') in ('inf', 'infinity'):
+        return NINF if t.startswith('-') else PINF
+    if t.lstrip('+-') == 'nan':
+        return NAN
+    v = float(s)
+    if v == float('inf'):
+        return PINF
+    if v == float('-inf'):
+        return NINF
+    return FV('fin', Fraction(v))
 
 
 def approximate_float_i64(val, max_error=Fraction(10) ** -19, max_iterations=30):
